@@ -111,6 +111,11 @@ def run(ctx):
                       "the %s-side insertion does not depend on the trading flag (orders rest with trading on or off)" % side,
                       "the %s-side insertion is conditional on the trading flag: [%s]" % (side, c.gtext()))
 
+    # ---------------------------------------------------------------- with trading on, matching is unconditional
+    # (the flag is the ONLY condition: after re-enabling every arriving / re-priced order matches by the usual rules)
+    from .c02 import never_crossed
+    never_crossed(ctx, m)
+
     # ---------------------------------------------------------------- flag writers
     en, dis = m.book_fn("enable_trading"), m.book_fn("disable_trading")
     for f, val in ((en, 1), (dis, 0)):
@@ -131,16 +136,10 @@ def run(ctx):
     for name in ("enable_trading", "disable_trading"):
         f = m.market_fn(name)
         q = m.q(f)
-        cs = [c for c in q.calls(name) if c.target is not None and c.target.path == m.book_fn(name).path]
-        ok = len(cs) == 1 and q.cfg.in_loop(cs[0].b)
-        adapters = [c.name for c in q.calls() if c.name in ("take", "skip", "filter", "step_by", "rev", "zip", "chain", "take_while", "skip_while", "nth", "last")]
-        iters = [c for c in q.calls("iter_mut") if fld(c.args[0], "order_books") or any(fld(x, "order_books") for x in walk(c.args[0]) if x[0] == "field")]
-        ctx.check(ok and not adapters and len(iters) == 1, "fan-out", "Market::" + name, ctx.loc(f),
-                  "Market::%s calls OrderBook::%s for every book (plain iter_mut loop)" % (name, name),
-                  "Market::%s does not toggle every book: calls=%d adapters=%s" % (name, len(cs), adapters))
-        if cs:
-            recv = cs[0].args[0]
-            ctx.check(any(x[0] == "call" and x[4] == "next" for x in walk(recv)), "fan-out", "Market::%s|item" % name, cs[0].loc(), "the toggled book is the loop item")
+        from .stepmodel import fanout_ok
+        ok, c0, detail = fanout_ok(m, q, "order_books", name)
+        ctx.check(ok, "fan-out", "Market::" + name, ctx.loc(f), "Market::%s calls OrderBook::%s for every book (%s)" % (name, name, detail),
+                  "Market::%s does not toggle every book: %s" % (name, detail))
         for (getter, owner_field, tgt) in ((m.env_fn, "order_book", m.book_fn(name)), (m.menv_fn, "market", m.market_fn(name))):
             g = getter(name)
             gq = m.q(g)
